@@ -34,7 +34,9 @@ def scenarios(workdir, repo):
 
 
 class Tracer(object):
-    def __init__(self, workdir, deliver_at, sig):
+    def __init__(self, workdir, deliver_at, sig, second=None):
+        self.second = second      # (event index, signal) of a second signal, or None
+        self.delivered2 = False
         self.workdir = os.path.realpath(workdir)
         self.events = []          # ("pre", i) ("op", i, name) ("post", i)
         self.deliver_at = deliver_at
@@ -50,6 +52,11 @@ class Tracer(object):
             self.delivered = True
             os.kill(os.getpid(), self.sig)
             # the handler runs at the next bytecode boundary of the main thread
+            for _ in range(3):
+                pass
+        if self.second is not None and idx == self.second[0] and self.delivered and not self.delivered2:
+            self.delivered2 = True
+            os.kill(os.getpid(), self.second[1])
             for _ in range(3):
                 pass
 
@@ -94,14 +101,14 @@ class FileProxy(object):
         return getattr(self._f, n)
 
 
-def child(tool, argv, workdir, deliver_at, signum, out_fd):
+def child(tool, argv, workdir, deliver_at, signum, out_fd, second=None):
     """runs in the forked child: the tool's main() after _sig.init(), traced"""
     result = {"exit": None, "events": [], "error": None}
     try:
         os.chdir(workdir)
         mod = importlib.import_module("mutagen._tools." + tool)
         util = importlib.import_module("mutagen._tools._util")
-        tr = Tracer(workdir, deliver_at, signum)
+        tr = Tracer(workdir, deliver_at, signum, second)
         real_open = builtins.open
 
         def traced_open(file, *a, **kw):
@@ -147,7 +154,7 @@ def child(tool, argv, workdir, deliver_at, signum, out_fd):
     os._exit(0)
 
 
-def run_case(tool, argv_fn, base, deliver_at, signum, repo):
+def run_case(tool, argv_fn, base, deliver_at, signum, repo, second=None):
     workdir = tempfile.mkdtemp(prefix="c20-", dir=base)
     argv = argv_fn(workdir)
     before = snapshot(workdir)
@@ -155,7 +162,7 @@ def run_case(tool, argv_fn, base, deliver_at, signum, repo):
     pid = os.fork()
     if pid == 0:
         os.close(r)
-        child(tool, argv, workdir, deliver_at, signum, w)
+        child(tool, argv, workdir, deliver_at, signum, w, second)
     os.close(w)
     chunks = []
     while True:
@@ -289,6 +296,32 @@ def _run(ctx, base):
                 # a block whose `pre` event fired but which was aborted before entering has 0 ops
                 pending.append((case, "ok exited=%d interrupted=1 done=%s" % (
                     1 if str(res.get("exit", "")).startswith("SystemExit") else 0, ",".join(map(str, done)) or "-")))
+        # two signals during one file's update (Ctrl-C twice; SIGHUP then SIGTERM at session teardown): the second one
+        # arrives at the same event, at the next one, or at the last operation of the same file
+        inblock = [i for i, e in enumerate(events) if e[0] == "op"]
+        if inblock:
+            firsts = rng.sample(inblock, min(len(inblock), 4 if ctx.quick else 40))
+            for k in sorted(firsts):
+                blk = events[k][1]
+                last_of_block = max(i for i in inblock if events[i][1] == blk)
+                for k2 in sorted({k, min(k + 1, last_of_block), last_of_block}):
+                    sg = SIGS[(k + k2) % 3]; sg2 = SIGS[(k + 2 * k2 + 1) % 3]
+                    res, b4, after, _ = run_case(tool, argv_fn, base, k, sg, ctx.repo, second=(k2, sg2))
+                    case = {"tool": tool, "subcommand": sub, "signal": signal.Signals(sg).name, "event_index": k, "event": events[k],
+                            "second_signal": signal.Signals(sg2).name, "second_event_index": k2, "ops_per_file": ns}
+                    ctx.case(key=(tool, sub, int(sg), k, int(sg2), k2), nontrivial=True, modelled=False, sample=case if k2 == k + 1 and sub == "write" else None)
+                    ctx.hist["two-signals:%s" % ("same-event" if k2 == k else "next-op" if k2 == k + 1 else "last-op-of-file")] += 1
+                    if res.get("error") and not res.get("events"):
+                        ctx.violation("harness-child-error", "child failed: %s" % res.get("error"), case)
+                        continue
+                    if not str(res.get("exit", "")).startswith("SystemExit:Aborted"):
+                        ctx.violation("%s:%s:two-signals:no-abort" % (tool, sub), "two signals delivered but the tool ended with %s" % res.get("exit"), case)
+                    for fn, data in after.items():
+                        if data != ref_after.get(fn) and data != before.get(fn):
+                            ctx.violation("%s:%s:two-signals:half-written" % (tool, sub), "file %s is neither untouched nor fully updated" % fn, case)
+                    got_ns = blocks_of(res["events"])
+                    if got_ns and (got_ns[:-1] != ns[:len(got_ns) - 1] or (got_ns[-1] not in (0, ns[len(got_ns) - 1]))):
+                        ctx.violation("%s:%s:two-signals:block-cut-short" % (tool, sub), "operations per file %r vs undisturbed %r" % (got_ns, ns), case)
     if ctx.model_ok() and lines:
         for line, (case, real) in zip(ctx.driver.ask(lines), pending):
             ctx.traces_validated += 1
